@@ -27,6 +27,7 @@ RULE = ('binop: pairs of conforming files (same structure, independent '
         'non-trivial = at least one non-coordinate variable was judged; '
         'distinct = digest of the spec.')
 RULE += (" One case in eight takes its operands from the library's READERS (the object a CAMx memory-mapped or record reader, bpch1, bpch2, arlpackedbit or ffi1001 returns for a valid image written by the independent codecs; second operand = its copy with other values): big-endian float32 data, +-max and denormal payloads, integer time flags; the time-flag variables of IOAPI-class files are the class's metadata and not judged here.")
+RULE += (" Disk operands: in half of the cases the left operand's coordinate variables are stored packed (int16 + scale_factor/add_offset). One case in 24: an IOAPI file with unevenly spaced steps opened from disk (TFLAG a declared coordinate, judged as such).")
 ASSUMPTIONS = [
     'cells masked in either operand are a don\'t-care region for the result '
     'MASK (the property does not say input masks propagate) but an unmasked '
